@@ -8,6 +8,7 @@ import re
 import shutil
 import subprocess
 import time
+import uuid
 from dataclasses import dataclass, field
 from pathlib import Path
 
@@ -167,7 +168,7 @@ def run(ctx, module: str, cfg: str | None = None, *, workers: int | str = 16, ti
     cfgpath = mpath.with_suffix('.cfg') if cfg is None else mpath.parent / cfg
     if not cfgpath.exists():
         raise MachineryError(f'missing cfg {cfgpath}')
-    meta = ctx.tmp / f'tlc-{len(ctx.tlc_runs)}-{os.getpid()}-{int(time.time()*1000)%100000}'
+    meta = ctx.tmp / f'tlc-{uuid.uuid4().hex}'   # unique also when drivers run TLC from several threads
     meta.mkdir(parents=True, exist_ok=True)
     jopts = ['-XX:+UseParallelGC', '-Xmx8g', '-Dtlc2.tool.fp.FPSet.impl=tlc2.tool.fp.OffHeapDiskFPSet']
     jopts = ['-XX:+UseParallelGC', '-Xmx8g']
